@@ -132,6 +132,7 @@ func C08(c *hx.Ctx) {
 	c.Rule = "call histories over {Write(class),Flush,Close} generated exhaustively by TLC (CallHist) up to the length bound, crossed with Writer2Config boundary values; each replayed on the real Writer2, judged on sink bytes (ref + Reader2) after every Flush/Close and validated as a trace by TLC; non-trivial = history with a Flush after data or more than two chunks"
 	c.Assumptions = []string{"TLC", "ref LZMA2 decoder (independent of /repo)", "chunk attribution to calls by sink offsets"}
 	c.DesignCheck(tlc.Opts{Module: "Lzma2Writer", Cfg: "Lzma2Writer_mc.cfg", Timeout: 3 * time.Minute}, []string{"BeginWrite", "BeginFlush", "BeginClose", "EmitChunk", "EndWrite", "EndFlush", "EndClose"})
+	configTable(c, "lzma2")
 	small := map[string]int{"W0": 0, "W1": 0, "W273": 0, "W4Kz": 0, "F": 0, "C": 0}
 	big := map[string]int{"W0": 0, "W1": 0, "W4K": 0, "W70Kr": 2, "W70Kt": 2, "W2M": 3, "F": 0, "C": 0}
 	hs := genHistories(c, tokenSet(small), c.Pick(5, 6), 0, 2)
